@@ -1,6 +1,7 @@
 (* Heap/Routes.v - C18: RouteTracer::run returns exactly the programme-to-channelFormat reference paths.
    [Path s h p]: p is a path of the reference graph that starts at element h and ends at a channel format, following
    programme -> content -> object (-> nested objects) -> pack format (-> nested pack formats) -> channel format. *)
+From Coq Require Import Lia.
 From Adm Require Import Heap.Frame Heap.More.
 Local Open Scope N_scope.
 
@@ -208,4 +209,35 @@ Proof.
   - destruct (go_of f s (route ++ [h]) (erefs e PackChan)) as [a|] eqn:Ea; [|discriminate].
     destruct (go_of f s (route ++ [h]) (erefs e PackPack)) as [b|] eqn:Eb; [|discriminate].
     rewrite (G _ _ Ea), (G _ _ Eb). exact H.
+Qed.
+
+(* ---------- termination: on a graph with a rank that decreases along every reference, fuel above the rank suffices ---------- *)
+Lemma go_some f s route' l : (forall x, In x l -> trace f s x route' <> None) -> go_of f s route' l <> None.
+Proof.
+  induction l as [|x l IH]; intros H; simpl; [discriminate|].
+  assert (Hx : trace f s x route' <> None) by (apply H; left; reflexivity).
+  assert (Hl : go_of f s route' l <> None) by (apply IH; intros y Hy; apply H; right; exact Hy).
+  destruct (trace f s x route') as [a|]; [|contradiction].
+  destruct (go_of f s route' l) as [b|]; [discriminate|contradiction].
+Qed.
+
+Theorem trace_terminates s (rank : positive -> nat) :
+  (forall x y, step s x y -> (rank y < rank x)%nat) ->
+  forall f h route, (rank h < f)%nat -> trace f s h route <> None.
+Proof.
+  intros Hr. induction f as [|f IH]; intros h route Hf; [exfalso; apply (Nat.nlt_0_r _ Hf)|].
+  rewrite trace_unfold. destruct (get_elem s h) as [e|] eqn:He; [|discriminate]. cbv zeta.
+  assert (G : forall x, step s h x -> trace f s x (route ++ [h]) <> None).
+  { intros x Hs. apply IH. pose proof (Hr h x Hs) as Hlt. lia. }
+  destruct (ekind e) eqn:Hk; try discriminate.
+  - apply go_some. intros x Hx. apply G. eapply st_prog; eauto.
+  - apply go_some. intros x Hx. apply G. eapply st_cont; eauto.
+  - destruct (go_of f s (route ++ [h]) (erefs e ObjPack)) as [a|] eqn:Ea.
+    + destruct (go_of f s (route ++ [h]) (erefs e ObjObj)) as [b|] eqn:Eb; [discriminate|].
+      exfalso. revert Eb. apply go_some. intros x Hx. apply G. eapply st_objobj; eauto.
+    + exfalso. revert Ea. apply go_some. intros x Hx. apply G. eapply st_objpack; eauto.
+  - destruct (go_of f s (route ++ [h]) (erefs e PackChan)) as [a|] eqn:Ea.
+    + destruct (go_of f s (route ++ [h]) (erefs e PackPack)) as [b|] eqn:Eb; [discriminate|].
+      exfalso. revert Eb. apply go_some. intros x Hx. apply G. eapply st_packpack; eauto.
+    + exfalso. revert Ea. apply go_some. intros x Hx. apply G. eapply st_packchan; eauto.
 Qed.
